@@ -96,7 +96,9 @@ def gen(rng: random.Random, k: int, tier: str) -> dict:
             heavy = cur[0] != "numpy"
             ops.append({"op": "toys", "s": s, "b": b, "mu": 0.0 if ts == "q0" else mu, "nobs": nobs, "test_stat": ts,
                         "ntoys": rng.choice([40, 60]) if heavy else rng.choice([200, 400] if mode == "scripted" else [150, 300, 500]),
-                        "mode": mode, "seed": rng.randrange(1 << 30), "route": rng.choice(["calculator", "calculator", "hypotest"])})
+                        "mode": mode, "seed": rng.randrange(1 << 30), "route": rng.choice(["calculator", "calculator", "hypotest"]),
+                        # a POI scan on ONE calculator object: distributions() is first called at another mu
+                        "scan_first": (round(mu * rng.choice([0.5, 2.0]), 3) if ts != "q0" and rng.random() < 0.3 else None)})
         else:
             kindm = rng.choice(["shapesys", "staterror", "normsys", "histosys"])
             nb = rng.choice([1, 2])
@@ -453,6 +455,14 @@ class World:
                               lambda: f"hypotest tail probs ({h_clsb},{h_clb}) differ from the calculator's on identical draws ({clsb},{clb})")
                 else:
                     calc = pyhf.infer.calculators.ToyCalculator(data, model, ntoys=N, test_stat=ts, track_progress=False)
+                    if op.get("scan_first") is not None:
+                        ctx.probe("calculator_reused_for_second_poi")
+                        calc.teststatistic(op["scan_first"])
+                        calc.distributions(op["scan_first"])
+                        if op["mode"] == "scripted":
+                            self.script_calls = 0
+                        else:
+                            self._seed(op["seed"])
                     q_obs = calc.teststatistic(mu)
                     sb, bo = calc.distributions(mu)
                     clsb, clb, cls_ = calc.pvalues(q_obs, sb, bo)
